@@ -106,6 +106,10 @@ def gen_cases(ctx: Ctx):
         K = 1 + (i % 4)
         same_dir = (i % 3 == 0)
         a0 = r.choice(SPECIAL_ANGLES) if r.random() < 0.3 else r.uniform(0.0, 360.0)
+        if i % 6 == 5:
+            # very close to, but not on, an image axis (1e-6 .. 3e-2 degrees off): "every scan angle"
+            # includes these, and an exact-0/1 shortcut for "axis-aligned" scans must not swallow them
+            a0 = (r.choice([0.0, 90.0, 180.0, 270.0, 360.0]) + r.choice([-1, 1]) * 10 ** r.uniform(-6.0, -1.5)) % 360.0
         angles = [a0] * n if same_dir else [a0] + [
             (r.choice(SPECIAL_ANGLES) if r.random() < 0.25 else r.uniform(0.0, 360.0)) for _ in range(n - 1)]
         pad = r.choice(DYADIC_PADS) if r.random() < 0.6 else r.uniform(0.0, 0.8)
